@@ -325,6 +325,9 @@ def run(ck, F):
     # parameter itself for what it was not given
     import c16 as _c16
     _c16.latest_binding_rule(ck, F, 'C02')
+    # the flags a declaration was given are the flags it reports: a setter stores into the declaration itself
+    import c05 as _c05
+    _c05.setters_rule(ck, F, 'C02')
 
     # elements the client builds in place (tokens of a pragma, captures of a closure, designators of a using-declaration): no
     # factory stands between the client's arguments and the node, the constructor is the contract
